@@ -9,9 +9,9 @@ RULE = ("A family = (cycle F/V/W, isotropic or triaxial 1:2:3 medium, "
         "Hypothesis-drawn electric point source (position in the central "
         "40 % of the domain, any azimuth/elevation) and frequency "
         "(0.3..3 Hz); the same draw is solved with stand-alone multigrid "
-        "(tol 1e-8) on uniform grids of 8, 16, 32 (a share also 64; "
-        "thorough: 128 and non-cubic 2^a x 3*2^b x 5*2^c shapes with cubic "
-        "cells) cells per direction over the same 1 km cube.  Oracle "
+        "(tol 1e-8) on uniform grids of 8, 16, 32 (a share also 64 and a non-cubic "
+        "2^a x 3*2^b x 5*2^c shape with cubic cells; thorough: 128 and more "
+        "non-cubic shapes) cells per direction over the same 1 km cube.  Oracle "
         "(metamorphic in grid size): all sizes converge; average reduction "
         "factor rho(n) <= 1.5*rho(16)+0.02 for n >= 16 and <= an absolute "
         "cap per (medium, nu_pre+nu_post) = 1.5 x the largest factor "
@@ -48,8 +48,10 @@ def spec_strategy(big, huge=False):
         'f': st.floats(-0.5, 0.5).map(lambda u: float(10**u)),
         'big': st.just(big),
         'huge': st.just(huge),
+        # non-cubic 2^a x 3*2^b x 5*2^c shapes (cubic cells): all of them in
+        # the thorough tier, the two cheapest ones also in the quick tier
         'noncubic': st.sampled_from([None] + list(range(len(NONCUBIC))))
-        if huge or big == 'nc' else st.just(None),
+        if huge or big == 'nc' else st.sampled_from([None, 0, 5, 0, 5]),
     })
 
 
